@@ -316,7 +316,7 @@ def check(case):
             if measured:
                 have, fresh = c17.observe(p, S), c17.observe(se.Path(p), S)
                 if not c17.same_observations(have, fresh, S):
-                    return o.violation("measured-history:%s" % op[0], "%s, the path having been measured before each step: [length, point(0.3), point(0.8), bbox] = %r, on a fresh copy of the same path %r" % (where, have, fresh))
+                    return o.violation("measured-history:%s" % op[0], "%s, the path having been measured before each step: [point(0.3), length, point(0.8), bbox] = %r, on a fresh copy of the same path %r" % (where, have, fresh))
         if o.labels.count("history:double-reverse"):
             if not (p == original):
                 return fail(o.violation("involution", "reversing twice gives %r, original %r" % (p.d(), original.d())))
